@@ -954,8 +954,8 @@ func c11Isolation(c *Ctx) {
 				for sr, w := range m {
 					if sr.Kind == effects.RParam && sr.Idx == 0 && (sr.Depth == 1 || sr.Depth == 2) {
 						// depth 1: the entries array / maps held by the source; depth 2: the entry objects
-						if sr.Depth == 1 && strings.Contains(w.Desc+w.OriginDesc, "annotations") {
-							continue // annotations map: replaced, never mutated, by SetAnnotations (maps.Clone)
+						if strings.Contains(w.Desc+w.OriginDesc, "annotations") {
+							continue // annotations map: replaced (maps.Clone), never updated in place — obligation annotations-never-updated below
 						}
 						bad = fmt.Sprintf("result shares %s with the source (%s at %s)", sr, firstNonEmpty(w.OriginDesc, w.Desc), p.Pos(w.Pos))
 					}
@@ -964,6 +964,36 @@ func c11Isolation(c *Ctx) {
 		}
 		r.Check(bad == "", "C11.isolation", "C11.isolation/"+core.FuncID(f), p.FuncPos(f), bad, "result shares neither the entries slice (depth 1) nor entry objects (depth 2) with its source; keys (immutable) may be shared")
 	}
+	// the one shared object the isolation rule tolerates: the annotations map. No
+	// function of package keyset updates, deletes from or clears a map loaded from
+	// an `annotations` field.
+	nAnn, badAnn := 0, ""
+	for _, f := range pkgFuncs(p, "keyset") {
+		allInstrs(f, func(ins ssa.Instruction) {
+			isAnn := func(v ssa.Value) bool {
+				_, fld, ok := guard.FieldOf(v)
+				return ok && fld == "annotations"
+			}
+			switch x := ins.(type) {
+			case *ssa.UnOp:
+				if isAnn(x) {
+					nAnn++
+				}
+			case *ssa.MapUpdate:
+				if isAnn(x.Map) {
+					badAnn = p.Pos(x.Pos())
+				}
+			case *ssa.Call:
+				if b, ok := x.Call.Value.(*ssa.Builtin); ok && (b.Name() == "delete" || b.Name() == "clear") && len(x.Call.Args) > 0 && isAnn(x.Call.Args[0]) {
+					badAnn = p.Pos(x.Pos())
+				}
+			}
+		})
+	}
+	if nAnn == 0 {
+		r.AnchorMissing("C11.isolation", "loads of an annotations field in package keyset")
+	}
+	r.Check(badAnn == "", "C11.isolation", "C11.isolation/annotations-never-updated", badAnn, "the annotations map shared between a Manager and its Handles is updated in place", fmt.Sprintf("%d loads of an annotations field, none updated/deleted/cleared in place", nAnn))
 	var handle *ssa.Function
 	for _, m := range methodsOf(p, "keyset", "Manager") {
 		if m.Name() == "Handle" {
